@@ -2,8 +2,8 @@
 both read it, so MANIFEST.json cannot drift from what the driver runs."""
 
 ENV = ["engine/envctl.cpp"]
-ZOO = ["zoo/zoo.cpp"]
-ZOO_DEPS = ["zoo/zoo.hpp", "zoo/describe.hpp", "zoo/categories.inc", "zoo/rows.inc", "zoo/rows_expr.inc", "zoo/rows_types_names.inc",
+ZOO = ["zoo/zoo.cpp", "zoo/rows_expr.cpp", "zoo/rows_types_names.cpp", "zoo/rows_stmt_decl.cpp", "zoo/rows_forms.cpp", "zoo/rows_internals.cpp"]
+ZOO_DEPS = ["zoo/zoo.hpp", "zoo/zoo_impl.hpp", "zoo/describe.hpp", "zoo/categories.inc", "zoo/rows_expr.inc", "zoo/rows_types_names.inc",
             "zoo/rows_stmt_decl.inc", "zoo/rows_forms.inc", "zoo/rows_internals.inc"]
 
 ASSUME_COMMON = [
